@@ -1,7 +1,7 @@
 (** Executable instance of Model/Crosser.v used by the correspondence check (C03):
       point   := the translated record s2_Point
       peq     := s2_Point_eqb                      (Go ==)
-      triage  := the translated s2.triageSign      (Gen.CrosserLeaf)
+      triage  := the translated s2.triageSign      (Gen.S2Pred)
       tangent := the float computation of NewEdgeCrosser + crossingSign, written with the
                  translated r3.Vector.Cross / Dot and s2.Point.PointCross
       refdir  := the translated s2.Point.referenceDir
@@ -10,8 +10,12 @@
                  so a lookup outside the table cannot go unnoticed)
     Definitions only. *)
 From Coq Require Import ZArith List Bool Floats.
+<<<<<<< HEAD
 From Geo Require Import Base.GoPrim Gen.R3 Gen.S2Point Gen.CrosserLeaf Model.Crosser.
 From Geo Require Import Gen.S2Pred.  (* s2_triageSign *)
+=======
+From Geo Require Import Base.GoPrim Gen.R3 Gen.S2Point Gen.S2Pred Model.Crosser.
+>>>>>>> c03
 Import ListNotations.
 Local Open Scope Z_scope.
 Local Open Scope bool_scope.
